@@ -528,3 +528,72 @@ Definition obs_eqb (a b : obs) : bool :=
 Definition lobs_eqb := list_beq obs_eqb.
 Definition lstr_eqb := list_beq String.eqb.
 Definition E (d : doc) (l : list (nat * bool)) : emission := {| em_doc := d; em_calls := l |}.
+
+(* ------------------------------------------------------------------ C19: the error policy, on observations *)
+
+Definition quiet_em (em : emission) : bool := negb (existsb snd (em_calls em)).
+
+(* Some id: the last callable invoked (id) raised and none before it did - delivery was cut there *)
+Definition cut_em (em : emission) : option nat :=
+  match rev (em_calls em) with
+  | (id, true) :: before => if existsb snd before then None else Some id
+  | _ => None
+  end.
+
+Definition doc_run (d : doc) : nat :=
+  match d with DStart r | DDescriptor r | DEvent r _ | DStop r _ => r end.
+
+Definition not_cb_exn (out : outcome) : bool := match out with Raised (ExCb _) => false | _ => true end.
+
+(* exceptions NOT ignored: nobody raises until (possibly) one emission is cut by a raising callable; then the
+   call raises exactly that callable's exception, no further plan message emits anything, and the one
+   remaining emission is the closing stop document of that run with exit status fail, delivered quietly *)
+Fixpoint strict_ok (ems : list emission) (out : outcome) : bool :=
+  match ems with
+  | [] => not_cb_exn out
+  | em :: rest =>
+      if quiet_em em then strict_ok rest out
+      else match cut_em em with
+           | None => false
+           | Some id =>
+               outcome_eqb out (Raised (ExCb id)) &&
+               match rest with
+               | [em'] => doc_eqb (em_doc em') (DStop (doc_run (em_doc em)) false) && quiet_em em'
+               | _ => false
+               end
+           end
+  end.
+
+Definition call_ok (ignore : bool) (ob : obs) : bool :=
+  match ob with
+  | OCall ems _ out => if ignore then not_cb_exn out else strict_ok ems out
+  | _ => true
+  end.
+
+Fixpoint policy_ok_from (ignore : bool) (h : list op) (os : list obs) : bool :=
+  match h, os with
+  | o :: h', ob :: os' =>
+      match o with
+      | SetIgnore b => policy_ok_from b h' os'
+      | RunCall _ _ => call_ok ignore ob && policy_ok_from ignore h' os'
+      | _ => policy_ok_from ignore h' os'
+      end
+  | _, _ => true
+  end.
+
+(* the callables of a history made non-raising, and observations without the raise flags *)
+Definition quiet_fn (f : callable) : callable :=
+  {| fn_id := fn_id f; fn_eq := fn_eq f; raises_on := fun _ => false |}.
+Definition quiet_pmsg (m : pmsg) : pmsg := match m with PSub f n => PSub (quiet_fn f) n | _ => m end.
+Definition quiet_op (o : op) : op :=
+  match o with
+  | Subscribe f n => Subscribe (quiet_fn f) n
+  | RunCall subs plan => RunCall (map (fun p => (fst p, map quiet_fn (snd p))) subs) (map quiet_pmsg plan)
+  | _ => o
+  end.
+Definition strip_em (em : emission) : emission :=
+  {| em_doc := em_doc em; em_calls := map (fun c => (fst c, false)) (em_calls em) |}.
+Definition strip_obs (ob : obs) : obs :=
+  match ob with OCall ems toks out => OCall (map strip_em ems) toks out | _ => ob end.
+Definition no_strict (h : list op) : bool :=
+  forallb (fun o => match o with SetIgnore false => false | _ => true end) h.
